@@ -199,6 +199,38 @@ func (in *inst) raceHooks(pos token.Pos, stmts []ast.Stmt, exprs []ast.Expr) []a
 		uniq = append(uniq, a)
 	}
 	var out []ast.Stmt
+	// x = append(x, ...) writes the slot behind the last element when the capacity allows: a write of
+	// that slot (another thread may still be reading the array through an older, longer view)
+	for _, st := range stmts {
+		as, ok := st.(*ast.AssignStmt)
+		if !ok || len(as.Rhs) != 1 {
+			continue
+		}
+		ce, ok := as.Rhs[0].(*ast.CallExpr)
+		if !ok || len(ce.Args) < 2 {
+			continue
+		}
+		if id, ok := ce.Fun.(*ast.Ident); !ok || id.Name != "append" {
+			continue
+		} else if _, isBuiltin := in.info.Uses[id].(*types.Builtin); !isBuiltin {
+			continue
+		}
+		x := ce.Args[0]
+		if tv, ok := in.info.Types[x]; !ok || !pure(x) || !tv.Addressable() {
+			continue
+		}
+		if _, ok := in.info.TypeOf(x).Underlying().(*types.Slice); !ok {
+			continue
+		}
+		ln := &ast.CallExpr{Fun: ast.NewIdent("len"), Args: []ast.Expr{x}}
+		slot := &ast.IndexExpr{X: &ast.SliceExpr{X: x, High: &ast.BinaryExpr{X: ln, Op: token.ADD, Y: &ast.BasicLit{Kind: token.INT, Value: "1"}}}, Index: ln}
+		ptr := &ast.CallExpr{Fun: &ast.SelectorExpr{X: ast.NewIdent("unsafe"), Sel: ast.NewIdent("Pointer")}, Args: []ast.Expr{&ast.UnaryExpr{Op: token.AND, X: slot}}}
+		out = append(out, &ast.IfStmt{
+			Cond: &ast.BinaryExpr{X: ln, Op: token.LSS, Y: &ast.CallExpr{Fun: ast.NewIdent("cap"), Args: []ast.Expr{x}}},
+			Body: &ast.BlockStmt{List: []ast.Stmt{&ast.ExprStmt{X: call("Wr", ptr, &ast.BasicLit{Kind: token.STRING, Value: where})}}},
+		})
+		in.counts["race:Wr(append slot)"]++
+	}
 	for _, a := range uniq {
 		fn := "Rd"
 		if a.write {
